@@ -115,6 +115,8 @@ def batch(chk, tier, race):
         calls.append(dict(k="open", a=ni, b=ci, c=ai, d=0))
         bad = list(ct); bad[-1] ^= 1
         calls.append(dict(k="open", a=ni, b=put(bad), c=ai, d=0))
+        bad2 = list(ct); bad2[0 if len(ct) > 16 else -2] ^= 0x40
+        calls.append(dict(k="open", a=ni, b=put(bad2), c=ai, d=0))    # refused calls next to accepted ones: error paths run concurrently too
     for _ in range(6):
         si = put(rb(rng, 16))
         calls.append(dict(k="enc", a=si, b=0, c=0, d=0))
@@ -145,7 +147,7 @@ def batch(chk, tier, race):
         calls.append(dict(k="verifyid", a=pidi, b=mi, c=put(b32(rscalar(rng))), d=put(b32(rscalar(rng)))))
         calls.append(dict(k="sm3", a=put(rb(rng, rng.choice([0, 55, 64, 200]))), b=0, c=0, d=0))
     rng.shuffle(calls)
-    return dict(pool=pool, key=key, calls=calls, workers=16, reps=(20 if tier == "quick" else 2000))
+    return dict(pool=pool, key=key, calls=calls, workers=16, reps=(100 if tier == "quick" else 2000))
 
 
 def expand(pool, key, calls, results):
